@@ -961,9 +961,13 @@ def mon_C09(blocks):
         if b.restart:
             faulty = False
             continue
-        if faulty or b.ret == "panic":
+        if b.ret == "panic" or b.frozen is not None:
             continue
         acked = (k == "req" and b.ret == "sess") or (k == "h" and b.tok[1] in MUTATORS and (b.ret == "ok" or (b.ret or "").startswith("val:")))
+        if b.faulted or (faulty and not (k == "h" and b.tok[1] in ("set", "del"))):
+            # in a history with store failures only calls that always save the whole session are judged: their success
+            # means the record now equals the session, whatever failed before
+            acked = False
         if acked and b.ss:
             sid_ = _unq(b.ss["id"])
             bg_deleted = set(i for _, i in b.bg)
@@ -972,7 +976,7 @@ def mon_C09(blocks):
                 if why:
                     out.append(Violation(b.idx, "after %s returned, the stored record of the session does not contain the change: %s" % (b.line, why)))
                     continue
-        if k in ("req", "h", "logoutuser", "refresh", "purge", "wait") and b.ret != "nosession":
+        if not faulty and k in ("req", "h", "logoutuser", "refresh", "purge", "wait") and b.ret != "nosession":
             for key, obj in b.cache.items():
                 why = coherent(obj, b.store.get(key), a.codec)
                 if why:
